@@ -10,6 +10,7 @@ import (
 	"math/rand"
 	"os"
 	"path/filepath"
+	"runtime/debug"
 	"sort"
 	"strings"
 )
@@ -230,6 +231,16 @@ func main() {
 		seen: map[string]bool{}, perFile: 400, widen: *widen, replay: *replay,
 		rep: &report{Property: prop, Tier: *tier, Seed: *seed, Dist: map[string]int{}, CaseIndex: map[string][]string{},
 			Samples: []interface{}{}, Failures: []failure{}, CaseFiles: []string{}}}
-	run(c)
+	// a runner that panics (a step the scenario relies on was refused, a monitor dereferenced something the library no longer returns) is a
+	// finding with a replay, not a crash: the message names the step, the stack the place
+	func() {
+		defer func() {
+			if r := recover(); r != nil {
+				c.fail("monitor", "runner-stopped", fmt.Sprintf("the %s runner could not go on: %v", prop, r),
+					map[string]interface{}{"panic": fmt.Sprint(r), "stack": string(debug.Stack())})
+			}
+		}()
+		run(c)
+	}()
 	c.finish()
 }
